@@ -270,3 +270,38 @@ Theorem c09_callback_record_run : forall tr s s' oss i c0, run s tr = Some (s', 
     (live c0 = true -> live c' = true \/ exists r, In (ORet (cb_op c0) r) (concat oss) /\ is_completion r = true).
 Proof. exact run_cb_next. Qed.
 Print Assumptions c09_callback_record_run.
+
+(** * Monitor over the observation sequence of a run (srv/SrvMonitors2.v, proof: srv/SrvMonPush.v), extracted and
+    evaluated by the model runner on every harness log, racing ones included.  [env_of tr] = the environment labels of
+    the trace in order, [concat oss] = the observations of the run in order; [req_ids os] = the non-empty ids of the
+    OSendReq observations in order; [final_of n] = "is a final return of operation n" (callback result, callback error,
+    context error, send failure); [push_of n] = "is an LCallPush n label";
+    [mon_push_ids env os] = req_ids os pairwise distinct, and for every n with a final return in os the final returns
+    of n in os are at most the LCallPush n labels in env. *)
+From JV Require SrvMonitors SrvMonitors2 SrvMonPush.
+Module Monitors.
+Import SrvMonitors SrvMonitors2.
+Theorem c09_mon_push_ids_sound : forall c tr s oss, run (init_of c) tr = Some (s, oss) ->
+  mon_push_ids (env_of tr) (concat oss) = true.
+Proof. exact SrvMonPush.mon_push_ids_sound. Qed.
+Print Assumptions c09_mon_push_ids_sound.
+
+(* the ids of the pushed requests of a whole run (restarts included: nothing resets the counter) are the decimal
+   numerals of 1, 2, 3, ... in order *)
+Theorem c09_push_ids_consecutive : forall c tr s oss, run (init_of c) tr = Some (s, oss) ->
+  req_ids (concat oss) = map dec_of_nat (seq 1 (call_id s - 1)).
+Proof. exact SrvMonPush.push_ids_consecutive. Qed.
+Print Assumptions c09_push_ids_consecutive.
+
+Theorem c09_push_ids_distinct : forall c tr s oss, run (init_of c) tr = Some (s, oss) ->
+  nodupb (req_ids (concat oss)) = true.
+Proof. exact SrvMonPush.push_ids_distinct. Qed.
+Print Assumptions c09_push_ids_distinct.
+
+(* a Callback result (or any other final return of a push) for operation n needs an LCallPush n of the environment:
+   counting form of C09.3 over the two sequences *)
+Theorem c09_push_returns_le_calls : forall c tr s oss n, run (init_of c) tr = Some (s, oss) ->
+  countb (final_of n) (concat oss) <= countb (push_of n) (env_of tr).
+Proof. exact SrvMonPush.push_returns_le_calls. Qed.
+Print Assumptions c09_push_returns_le_calls.
+End Monitors.
